@@ -1,5 +1,7 @@
 (* Framing/WireFrames.v — readers for the frame descriptions written by harness/pbfrun
-   (EmitFrames / EmitToks).  Objects are single tokens (kind + 4*id).  Executable only. *)
+   (EmitFrames / EmitToks).  An object is a single token: kind + 4 * h, h the first 58 bits of the
+   sha256 of the object's canonical rendering (harness/pbfrun Tok / ElemTok: every field of the
+   element), so equal tokens mean equal content up to hash collisions.  Executable only. *)
 From Coq Require Import ZArith List Bool.
 From Verif Require Import Base.Wire Framing.Model.
 Import ListNotations.
